@@ -100,12 +100,21 @@ class Sim:
         for name in dict.keys(self.tags):
             self.attrs[name] = dict.__getitem__(self.tags, name)["attribute"]
         # the Attribute actually installed in the object tree must be the one we watch
+        self.config_problems = []       # what a configuration-level oracle may want to report (C03): aliasing of tags
         for name in self.attrs:
             ids = M.device.resolve_tag(name)
             assert ids, "tag %r not resolvable after setup" % name
             att = M.device.lookup(*ids)
-            assert att is self.attrs[name], "tag %r: installed Attribute differs from configured" % name
+            if att is not self.attrs[name]:
+                self.config_problems.append("tag %r resolves to %r whose Attribute %r is not the one configured for it (%r)"
+                                            % (name, ids, att, self.attrs[name]))
         self.addr_of = {name: M.device.resolve_tag(name) for name in self.attrs}
+        seen = {}
+        for name, typ, length, address in self.cfg:
+            a = tuple(self.addr_of[name])
+            if a in seen and not address:
+                self.config_problems.append("tags %r and %r were both given address %r" % (seen[a], name, a))
+            seen.setdefault(a, name)
 
     # -- configuration ---------------------------------------------------------------------------
     def _tagspecs(self):
